@@ -14,10 +14,10 @@ trap cleanup EXIT
 rmdir "$wt"; git -C /repo worktree add -q --detach "$wt" HEAD || exit 9
 : > "$log"
 pkgs=""; funcs=""
-for f in $(cd "$out/demo" && find . -type f -name '*.go' | sed 's#^\./##'); do
+for f in $(cd "$out/demo" && find . -type f | sed 's#^\./##'); do
   d=$(dirname "$f")
-  if [ "$d" = "." ]; then echo "NOT-CONFIRMED $name: demo file $f has no target directory"; exit 1; fi
   mkdir -p "$wt/$d"; cp "$out/demo/$f" "$wt/$f"
+  case "$f" in *_test.go) ;; *) continue;; esac
   case " $pkgs " in *" ./$d/ "*) ;; *) pkgs="$pkgs ./$d/";; esac
   for t in $(grep -ho '^func Test[A-Za-z0-9_]*' "$out/demo/$f" | sed 's/func //'); do funcs="$funcs|$t"; done
 done
@@ -30,7 +30,7 @@ if ! git apply "$out/patch.diff" 2>>"$log"; then
 fi
 echo "## demo with patch" >>"$log"
 if go test -vet=off -count=1 -timeout 300s -run "$run" "$@" $pkgs >>"$log" 2>&1; then mut=pass; else mut=fail; fi
-for f in $(cd "$out/demo" && find . -type f -name '*.go' | sed 's#^\./##'); do rm -f "$wt/$f"; done
+for f in $(cd "$out/demo" && find . -type f | sed 's#^\./##'); do rm -f "$wt/$f"; done
 echo "## full suite with patch" >>"$log"
 if go build ./... >>"$log" 2>&1 && go test -vet=off -count=1 ./... >>"$log" 2>&1; then suite=pass; else suite=fail; fi
 if [ $base = pass ] && [ $mut = fail ] && [ $suite = pass ]; then echo "CONFIRMED $name (demo $pkgs -run '$run': unmodified=$base patched=$mut; suite with patch=$suite)"; else echo "NOT-CONFIRMED $name (demo: unmodified=$base patched=$mut; suite with patch=$suite) see $log"; fi
